@@ -40,6 +40,10 @@ type Obligation struct {
 	NoRetry bool // listed known finding: expected to stay undischarged
 	Output  string
 	replay  *replayPlan
+	// consistency obligation (kind "consistency"): the hypotheses after applying an assumed contract must not be
+	// contradictory unless they already were before (nBefore = number of hypotheses before the application)
+	nBefore int
+	Before  string // query file of the "before" state
 }
 
 // Frame: one function activation under symbolic execution (top-level or inlined).
